@@ -96,6 +96,22 @@ PROPS = {
         "note": "Trusted: as C01. The statement 'no posting entry' for the default/pattern/range holders is checked by the correspondence run through the hook (all posting-list entries compared as a multiset).",
         "assumptions": ["unsupported operators on a container (programming error, PanicIf) are outside the property's 'unparseable value'"],
     },
+    "C05": {
+        "level": "proof",
+        "design_ref": "§6 C05",
+        "technique": "Coq proof of the holder's hit rule over a model in which the third-party automaton is replaced by its substring specification (proved equivalent to contiguous occurrence); the real automaton is validated against that specification on adversarial keyword sets on every run, and pattern fields are run through all three indexes against model and DNF specification",
+        "text": "substring = contiguous occurrence, and the pattern holder selects a keyword's posting list exactly when the keyword occurs in the joined query text, are Coq theorems about Model/Index.v; the anknown/ahocorasick automaton itself is third-party code represented by its specification, which every run validates against the real automaton (one document per keyword, overlapping/nested/duplicate/multi-byte/separator-containing keywords). Mixed pattern/default documents run on k-groups, compact and roaring indexes.",
+        "note": "Trusted: Coq kernel; the substring specification as a stand-in for the automaton (validated, not proved); strings as sequences of code points (valid UTF-8 only); empty keywords are outside the property ('non-empty keywords').",
+        "assumptions": ["valid UTF-8 keywords and texts", "non-empty keywords"],
+    },
+    "C06": {
+        "level": "proof",
+        "design_ref": "§6 C06",
+        "technique": "Coq proof by induction over the insert history of a statement-level model of RangeIdx.IndexingRange/Explode (contiguous cover invariant + entries-at-x = covering ranges), operator->interval lemmas for every expansion threshold; model compared piece by piece with the real RangeIdx (hook) and end to end on both indexes inside Coq",
+        "text": "for any insert history the interval index is a contiguous cover whose piece at x holds exactly the entries of the ranges containing x, and for any expansion threshold the transaction of >, <, between selects exactly the operator's interval (Coq theorems about the statement-level model of term_ext_range_holder.go); histories run against the real RangeIdx with pieces compared one by one and every boundary +-1 probed, and range documents (include/exclude, narrow/wide, overlapping, +-2^62) run on k-groups and compact indexes against model and specification.",
+        "note": "Trusted: Coq kernel; float64 Size() comparison with the threshold modelled as exact integer comparison (either branch is proved right, so rounding cannot change the meaning); sort.Find modelled as lookup of the containing piece (unique by the chain invariant). No axioms.",
+        "assumptions": ["bounds of magnitude up to 2^62 (no int64 wrap in a+1 / r++)", "the registered holder uses RangeMin = MinInt64 (ranges below a custom minimum are dropped, recorded as an observation)"],
+    },
 }
 
 # properties not claimed (reason); empty when everything is claimed
